@@ -9,7 +9,7 @@ from pathlib import Path
 from ..common import Report, parse_args, pmap
 from .C07 import canonical
 
-REPLAYS = Path(__file__).resolve().parents[2] / "replays"
+from ..common import REPLAYS  # noqa: E402
 
 SPECIAL_NAMES = ["arg_0", "arg_1", "e", "Jets", "abs", "result", "Select", "Count", "collection_name", "i_obj1", "jets0", "xAOD", "acc", "x"]
 
